@@ -1752,3 +1752,92 @@ def no_swallowed_errors(fns):
 
 
 SPECS["O10.7"] = [no_swallowed_errors]
+
+
+# ---------------------------------------------------------------------------------------------
+# C12 O12.6: every distinct user key is registered with the filter, with the hash the reader probes with
+# ---------------------------------------------------------------------------------------------
+
+def filter_registration(fns):
+    out = []
+    # (a) Writer::write: a new user key is registered (unless the bloom policy is inactive)
+    fn = mir.find(fns, r"src/table/writer/mod\.rs[^>]*>::write\(_1: &mut table::writer::Writer")
+    a = Automaton(fn, "O12.6a table::Writer::write: a user key seen for the first time is registered with the filter writer")
+    ne = one(calls(fn, r"<Option<&slice_default::Slice> as PartialEq>::(ne|eq)$"), "comparison of the item's user key with current_key")
+    is_ne = ne.callee.endswith("::ne")
+    newkey = true_edge(fn, ne) if is_ne else false_edge(fn, ne)
+    act = one(calls(fn, r"BloomConstructionPolicy::is_active$"), "bloom_policy.is_active()")
+    inactive = false_edge(fn, act)
+    reg = calls(fn, r"as FilterWriter<.*>::register_key$")
+    if not reg:
+        raise MirError("Writer::write: no register_key call")
+    ok_ret, err_ret = ret_blocks(fn)
+    # the key registered must be the item's user key (the local that is compared with current_key)
+    uf = alias_classes(fn)
+    cmp_key = None
+    for st in fn.blocks[[b for b in live_blocks(fn) if ne.idx in b.succ or b.idx == ne.idx][0].idx].stmts:
+        pass
+    key_locals = set()
+    for b in live_blocks(fn):
+        for st in b.stmts:
+            m = re.match(r"^(_\d+) = Option::<&slice_default::Slice>::Some\(move (_\d+)\)$", st)
+            if m:
+                d = [s2 for bb in live_blocks(fn) for s2 in bb.stmts if s2.startswith(m.group(2) + " = &")]
+                if d:
+                    key_locals.add(RE_LOCAL.findall(d[0])[1])
+    rargs = [x.strip() for x in mir.split_top(reg[0].args)]
+    rl = RE_LOCAL.search(rargs[1])
+    rdef = [s2 for bb in live_blocks(fn) for s2 in bb.stmts if rl and s2.startswith(rl.group(0) + " = &")]
+    same_key = bool(rdef) and RE_LOCAL.findall(rdef[0])[1] in key_locals
+    a.glue = [("register_key is given the user key that was compared with current_key", "proved" if same_key else "refuted", 0.0)]
+    a.var("newkey").var("handled")
+    a.event("edge:user key differs from current_key", [newkey]).on("edge:user key differs from current_key", "newkey", True)
+    a.event("call:register_key", [b.idx for b in reg] if same_key else []).on("call:register_key", "handled", True)
+    a.event("edge:bloom policy inactive", [inactive]).on("edge:bloom policy inactive", "handled", True)
+    a.event("ret_ok", ok_ret)
+    a.require("ret_ok", "(or (not {newkey}) {handled})", "a user key enters the table without being registered with the filter: the filter rejects a key that was written (point reads miss it)")
+    out.append(a)
+
+    # (b) both filter writers hash with Builder::get_hash(key) and buffer exactly that
+    for sel, nm in ((r"src/table/writer/filter/full\.rs[^>]*>::register_key\(", "FullFilterWriter"),
+                    (r"src/table/writer/filter/partitioned\.rs[^>]*>::register_key\(", "PartitionedFilterWriter")):
+        f2 = mir.find(fns, sel)
+        b2 = Automaton(f2, "O12.6b %s::register_key buffers standard_bloom::Builder::get_hash(key)" % nm)
+        push = [b for b in live_blocks(f2) if b.kind == "call" and re.search(r"Vec::<u64>::push$", b.callee)]
+        okb = False
+        if len(push) == 1:
+            pv = RE_LOCAL.findall(push[0].args)[-1]
+            ch = _call_chain(f2, pv)
+            okb = bool(ch) and re.search(r"standard_bloom::builder::Builder::get_hash$", ch[0]) is not None and \
+                any(re.search(r"Slice as Deref>::deref$", c) for c in ch[1:2] or ch)
+            src = [b for b in live_blocks(f2) if b.kind == "call" and re.search(r"Slice as Deref>::deref$", b.callee)]
+            okb = okb and any("_2" in RE_LOCAL.findall(b.args or "") for b in src)
+        b2.glue = [("bloom_hash_buffer.push(Builder::get_hash(&*key))", "proved" if okb else "refuted", 0.0)]
+        b2.var("x")
+        b2.event("ret:hash of the key NOT buffered", [] if okb else [b.idx for b in live_blocks(f2) if b.kind == "return"])
+        b2.require("ret:hash of the key NOT buffered", "false", "%s::register_key does not buffer Builder::get_hash(key)" % nm)
+        out.append(b2)
+
+    # (c) the reader probes with the same function, computed from the looked-up key
+    g = mir.find(fns, r"src/tree/mod\.rs[^>]*>::get_internal_entry_from_tables\(")
+    c = Automaton(g, "O12.6c point reads probe tables with standard_bloom::Builder::get_hash(key)")
+    tg = calls(g, r"(^|::)Table::get$")
+    okc = False
+    if len(tg) == 1:
+        args = [x.strip() for x in mir.split_top(tg[0].args)]
+        if len(args) == 4:
+            hl = RE_LOCAL.search(args[3])
+            prod = [b for b in live_blocks(g) if b.kind == "call" and hl and b.dest == hl.group(0)]
+            okc = len(prod) == 1 and re.search(r"standard_bloom::builder::Builder::get_hash$", prod[0].callee) is not None and \
+                RE_LOCAL.findall(prod[0].args) == ["_2"] and RE_LOCAL.findall(args[1]) == ["_2"]
+    else:
+        raise MirError("get_internal_entry_from_tables: expected one direct Table::get call")
+    c.glue = [("Table::get(table, key, seqno, Builder::get_hash(key))", "proved" if okc else "refuted", 0.0)]
+    c.var("x")
+    c.event("call:Table::get with a hash that is not get_hash(key)", [] if okc else [tg[0].idx])
+    c.require("call:Table::get with a hash that is not get_hash(key)", "false", "the filter is probed with a hash other than the one keys are registered with")
+    out.append(c)
+    return out
+
+
+SPECS["O12.6"] = [filter_registration]
